@@ -125,11 +125,15 @@ CHECKS['C01'] = dict(
           'text) and triples_grouping (all 1728 ordered triples, on the token stream) by kernel evaluation — the '
           'exhaustive part of the property\'s own quantifier; sign_and_percent, empty_arguments_keep_position, '
           'array_rows, ragged_rejected, spelling_instances (instances, labelled as such); signrun_counterexample '
-          '(the pinned code folds sign runs: known finding). Unbounded depth: parse_fully_parenthesised — for EVERY '
-          'canonical tree (any size, any nesting) the parser model reads the fully parenthesised token list of the '
-          'tree back as that tree (induction over trees, XL.Proofs.ParseRender.parse_toks) — with '
-          'extra_parentheses_transparent / extra_parentheses_inside; for minimally parenthesised spellings beyond '
-          'triples the claim rests on the correspondence (DESIGN §9.2). The model is '
+          '(the pinned code folds sign runs: known finding). Unbounded size and depth, token level: '
+          'any_spelling_parses — EVERY token spelling of EVERY tree over binary operators, signs, %, calls (any '
+          'number of arguments, empty ones included) with parentheses at least where precedence and left-to-right '
+          'grouping need them, and any redundant ones, is read back as that tree (induction on the spelling, '
+          'XL.Proofs.ParseMin.parse_spelling); minimal_spelling_parses (fewest parentheses), spelling_unambiguous, '
+          'groups_left_to_right, stronger_binds_first, sign_binds_strongest, empty_argument_positions, '
+          'parse_fully_parenthesised, extra_parentheses_transparent/_inside. The step from characters to tokens is '
+          'not proved for arbitrary operands (DESIGN §9.2): theorems on the text cover the operator vocabulary '
+          '(pairs/triples) and the correspondence the rest. The model is '
           'compared with Parser().ast on every generated spelling (exhaustive pairs/triples, random trees to depth 5 '
           'in minimal and decorated spellings); the rendering of the parsed tree is compared with the rendering of the '
           'generating tree (independent oracle) and compiled formulas are evaluated against their trees.'),
@@ -209,7 +213,10 @@ CHECKS['C09'] = dict(
           'tokeniser as exactly one string literal whose body is the doubled text) — the part of the export that had '
           'the defects repaired by a fix: commit; export_reparse_instances (kernel-checked instances of "exported '
           'text parses back to itself"); export_reparses — for EVERY canonical tree the exported (fully parenthesised) '
-          'token list parses back to the tree, any depth; signrun_export_counterexample (known finding). The check runs json.dumps(to_dict()) -> from_dict -> calculate -> to_dict '
+          'token list parses back to the tree, any depth; signrun_export_counterexample (known finding); '
+          'blank_listing_schedule_independent / _order_independent / _fixed_point — the cells exported as #EMPTY are '
+          'the least stable listing of range assembly whatever the schedule, and a second export lists nothing new '
+          '(XL.Proofs.Blanks; the model closure is compared with _assemble_ranges on random range sets). The check runs json.dumps(to_dict()) -> from_dict -> calculate -> to_dict '
           'on random workbooks and on hand-built .xlsx workbooks with tricky constants, sheet names that need '
           'quoting, array formulas, names and unresolved items (values of every node equal, second export equal to '
           'the first) and re-parses the exported text of every generated formula tree.'),
